@@ -78,8 +78,11 @@ def build_kernel(kname, spec, variant='plain'):
     os.makedirs(bd, exist_ok=True)
     ll = os.path.join(bd, 'kernel.ll')
     flags = list(CLANG_FLAGS) + list(getattr(spec, 'CLANG_EXTRA', []))
-    if variant == 'safety':
+    base, _, extra = variant.partition('+')   # variant = plain|safety[+NAME=VALUE,...]: per-job compile-time parameters of the shim (e.g. the depth bound of a model DOM)
+    if base == 'safety':
         flags += SAFETY_FLAGS
+    for d in [x for x in extra.split(',') if x]:
+        flags.append('-D' + d)
     t0 = time.time()
     r = sh(['clang++-14'] + flags + [os.path.join(kd, 'shim.cpp'), '-o', ll], timeout=600)
     if r['rc'] != 0:
@@ -293,19 +296,20 @@ SHIM_RP_FLAGS = ['-std=c++17', '-O1', '-g', '-fno-exceptions', '-fno-rtti', '-fn
                  '-fno-sanitize-recover=all', '-fno-omit-frame-pointer', '-I' + INC, '-I' + ENGINE, '-DJSONCONS_VERIF', '-D_GLIBCXX_ASSERTIONS', '-DIRC_REPLAY', '-w']
 
 
-def build_replay(kname, harness_file, defs):
-    key = (kname, harness_file, json.dumps(defs or {}, sort_keys=True))
+def build_replay(kname, harness_file, defs, shim_defs=None):
+    key = (kname, harness_file, json.dumps(defs or {}, sort_keys=True), json.dumps(shim_defs or {}, sort_keys=True))
+    sdv = ('+' + ','.join('%s=%s' % kv for kv in sorted(shim_defs.items()))) if shim_defs else ''
     with _replay_lock:
         if key in _replay_built:
             return _replay_built[key]
         kd = os.path.join(KERNELS, kname)
-        bd = os.path.join(BUILD, kname, 'plain')
+        bd = os.path.join(BUILD, kname, 'plain' + sdv)
         if not os.path.exists(os.path.join(bd, 'protos', 'kernel.c')):
-            build_kernel(kname, load_spec(kname), 'plain')
+            build_kernel(kname, load_spec(kname), 'plain' + sdv)
         spec = load_spec(kname)
         shim_o = os.path.join(bd, 'shim_rp.o')
         if not os.path.exists(shim_o):
-            r = sh(['clang++-14'] + SHIM_RP_FLAGS + list(getattr(spec, 'CLANG_EXTRA', [])) + ['-c', os.path.join(kd, 'shim.cpp'), '-o', shim_o], timeout=900)
+            r = sh(['clang++-14'] + SHIM_RP_FLAGS + list(getattr(spec, 'CLANG_EXTRA', [])) + ['-D%s=%s' % kv for kv in sorted((shim_defs or {}).items())] + ['-c', os.path.join(kd, 'shim.cpp'), '-o', shim_o], timeout=900)
             if r['rc'] != 0:
                 raise Broken('replay shim build failed for %s:\n%s' % (kname, r['err'][-3000:]))
         h = hashlib.sha1(repr(key).encode()).hexdigest()[:10]
@@ -345,8 +349,8 @@ def enc_inputs(ins):
     return args
 
 
-def run_replay(kname, harness, ins, defs=None, harness_file='harness.c'):
-    exe = build_replay(kname, harness_file, defs)
+def run_replay(kname, harness, ins, defs=None, harness_file='harness.c', shim_defs=None):
+    exe = build_replay(kname, harness_file, defs, shim_defs)
     args = [exe, harness] + enc_inputs(ins)
     env = dict(os.environ, ASAN_OPTIONS='detect_leaks=0:abort_on_error=0:detect_stack_use_after_return=0', UBSAN_OPTIONS='print_stacktrace=1')
     r = sh(args, timeout=120, env=env)
@@ -390,15 +394,19 @@ def check_property(pid, tier, seed, only_kernel=None, only_job=None, keep=False,
     infos = {}
     selftests = {}
     need = {}
+    def variant_of(j):
+        v = 'safety' if j.get('safety') else 'plain'
+        sd = j.get('shim_defs')
+        return v + ('+' + ','.join('%s=%s' % kv for kv in sorted(sd.items())) if sd else '')
     for j in jobs:
-        need.setdefault(j['kernel'], set()).add('safety' if j.get('safety') else 'plain')
+        need.setdefault(j['kernel'], set()).add(variant_of(j))
 
     def bld(kn):
         out = {}
         for var in sorted(need[kn]):
             out[var] = build_kernel(kn, specs[kn], var)
         try:
-            st = selftest(kn, specs[kn], out.get('plain') or build_kernel(kn, specs[kn], 'plain'), seed)
+            st = selftest(kn, specs[kn], out.get('plain') or (build_kernel(kn, specs[kn], 'plain') if os.path.exists(os.path.join(KERNELS, kn, 'selftest.cpp')) else next(iter(out.values()))), seed)
         except Broken as e:
             # a mismatch can be caused by undefined behaviour in the (changed) code under test, e.g. a read of uninitialised bytes: keep going -
             # a reproduced counterexample outranks it; without one the run is reported as BROKEN, never as success
@@ -417,7 +425,7 @@ def check_property(pid, tier, seed, only_kernel=None, only_job=None, keep=False,
     selftest_failures = ['%s: %s' % (kn, st['failed']) for kn, st in selftests.items() if st.get('failed')]
 
     def runj(j):
-        info = infos[j['kernel']]['safety' if j.get('safety') else 'plain']
+        info = infos[j['kernel']][variant_of(j)]
         main = run_cbmc(j, info, witness=False)
         wit = None
         if j.get('witness', True):
@@ -478,8 +486,8 @@ def check_property(pid, tier, seed, only_kernel=None, only_job=None, keep=False,
                 if f['property'].endswith('.unwind.%s' % f['property'].split('.')[-1]) and '.unwind.' in f['property']:
                     broken.append('%s: unwinding assertion failed (%s) - bound too small for this tree, verdict not claimed' % (jid, f['description']))
                     continue
-                rp = run_replay(j['kernel'], j['harness'], ins, j.get('defs'), j.get('harness_file', 'harness.c'))
-                rec = dict(property=pid, kernel=j['kernel'], job=j['id'], harness=j['harness'], harness_file=j.get('harness_file', 'harness.c'), defs=j.get('defs', {}), inputs=ins,
+                rp = run_replay(j['kernel'], j['harness'], ins, j.get('defs'), j.get('harness_file', 'harness.c'), j.get('shim_defs'))
+                rec = dict(property=pid, kernel=j['kernel'], job=j['id'], harness=j['harness'], harness_file=j.get('harness_file', 'harness.c'), defs=j.get('defs', {}), shim_defs=j.get('shim_defs'), inputs=ins,
                            failed_assertion=f['description'], cbmc_property=f['property'], replay=rp)
                 if rp['reproduced']:
                     violations.append(rec)
@@ -567,7 +575,7 @@ def replay_file(path):
     BUILD = os.path.join(BUILD_ROOT, 'replay-%d' % os.getpid())
     shutil.rmtree(BUILD, ignore_errors=True)
     os.makedirs(BUILD, exist_ok=True)
-    rp = run_replay(v['kernel'], v['harness'], v['inputs'], v.get('defs'), v.get('harness_file', 'harness.c'))
+    rp = run_replay(v['kernel'], v['harness'], v['inputs'], v.get('defs'), v.get('harness_file', 'harness.c'), v.get('shim_defs'))
     print(rp['cmd'])
     print(rp['out'])
     shutil.rmtree(BUILD, ignore_errors=True)
